@@ -1432,10 +1432,37 @@ fn pretty_scalar(n: Number) -> Markup {
     m::value(n.pretty_print())
 }
 
+/// Functions whose calls are echoed as `x °C`, `x °F`, `x -> °C` or `x -> °F`.
+fn is_temperature_sugar(name: &str) -> bool {
+    matches!(
+        name,
+        "from_celsius"
+            | "from_fahrenheit"
+            | "°C"
+            | "celsius"
+            | "degree_celsius"
+            | "°F"
+            | "fahrenheit"
+            | "degree_fahrenheit"
+    )
+}
+
 fn with_parens(expr: &Expression) -> Markup {
     match expr {
         // a negative number (as produced by `x⁻¹`) reads back as a negation
         Expression::Scalar { value, .. } if value.to_f64() < 0.0 => {
+            m::operator("(") + expr.pretty_print() + m::operator(")")
+        }
+        // calls that are printed in their `x °C` / `x -> °C` sugar form are compound
+        Expression::FunctionCall { name, args, .. }
+            if args.len() == 1 && is_temperature_sugar(name) =>
+        {
+            m::operator("(") + expr.pretty_print() + m::operator(")")
+        }
+        Expression::CallableCall { callable, args, .. }
+            if args.len() == 1
+                && matches!(callable.as_ref(), Expression::Identifier { name, .. } if is_temperature_sugar(name)) =>
+        {
             m::operator("(") + expr.pretty_print() + m::operator(")")
         }
         Expression::Scalar { .. }
